@@ -34,6 +34,20 @@ pub enum Node {
     Number(Decimal),
 }
 
+/// Mean of values whose sum does not fit: every value is split into a multiple of the count, divided exactly, and
+/// a remainder below the count; halving each value first would round away the last digit (avg(MAX, MAX) is MAX).
+fn split_mean(values: &[Decimal]) -> Option<Decimal> {
+    let len = Decimal::new(values.len() as i64, 0);
+    let mut whole = Decimal::ZERO;
+    let mut rest = Decimal::ZERO;
+    for value in values {
+        let remainder = decimal_rem(*value, len)?;
+        whole = whole.checked_add(value.checked_sub(remainder)?.checked_div(len)?)?;
+        rest = rest.checked_add(remainder)?;
+    }
+    whole.checked_add(rest.checked_div(len)?)
+}
+
 fn gamma(a: Decimal) -> Option<Decimal> {
     let pi = Decimal::new(3141592653589793238, 18); // 3.14159265358979323846264338327950288419716939937510582
     if a < Decimal::new(5, 1) {
@@ -346,18 +360,18 @@ pub fn eval(expr: Node) -> Result<Decimal, Box<dyn error::Error>> {
         Avg(args) => {
             let len = Decimal::new(args.len() as i64, 0);
             let mut result = Some(Decimal::ZERO);
-            let mut scaled = Some(Decimal::ZERO);
+            let mut values = vec![];
             for arg in <Vec<Node> as Clone>::clone(&args).into_iter() {
                 #[cfg(feature = "verif_hooks")]
                 crate::verif_hooks::tick(crate::verif_hooks::Point::EvalLoop);
                 let value = eval(arg)?;
                 result = result.and_then(|sum| sum.checked_add(value));
-                scaled = scaled.and_then(|sum| sum.checked_add(value / len));
+                values.push(value);
             }
-            // when the sum overflows although the mean does not (avg(MAX, MAX)): the sum of the scaled terms
+            // when the sum overflows although the mean does not (avg(MAX, MAX)): see split_mean
             match result {
                 Some(sum) => Ok(sum / len),
-                None => Ok(scaled.ok_or("Decimal overflow")?),
+                None => Ok(split_mean(&values).ok_or("Decimal overflow")?),
             }
         }
         Med(args) => {
@@ -375,7 +389,7 @@ pub fn eval(expr: Node) -> Result<Decimal, Box<dyn error::Error>> {
                 match a.checked_add(b) {
                     Some(sum) => Ok(sum / two),
                     // the sum overflows although the mean does not
-                    None => Ok((a / two).checked_add(b / two).ok_or("Decimal overflow")?),
+                    None => Ok(split_mean(&[a, b]).ok_or("Decimal overflow")?),
                 }
             } else {
                 Ok(results[len >> 1])
